@@ -132,6 +132,40 @@ def rule_line(ctx) -> None:
                         ctx.info("C16.LINE", f"{f.qual}/append", f.loc(o.call), f"append-mode writer of a non-canonical artefact: {tgt[:60]}")
 
 
+LENIENT_CODEC_ERRORS = ("ignore", "replace", "surrogatepass", "surrogateescape", "backslashreplace", "xmlcharrefreplace", "namereplace")
+
+
+def rule_line_total(ctx) -> None:
+    """"every record appended ... appears as exactly one complete line" for every record json can serialise: the text
+    json.dumps(ensure_ascii=False) produces may hold a lone surrogate (undecodable argv / stdin bytes), which a strict
+    .encode('utf-8') refuses - in the staged flush that happens after the stager was drained, and every record sorted after
+    the bad one is lost.  The writers of the log module encode leniently (the escape \\udcXX reads back unchanged) or dump
+    with ensure_ascii; and the mux's flush() writes past the active mux, or it puts the pairs back into the buffer."""
+    n_w = 0
+    for q in (UNBUF, LOGMOD + ":rewrite_jsonl"):
+        fn = ctx.func(q)
+        dumps = [x for x in walk_no_defs(fn.node) if isinstance(x, ast.Call) and dotted(x.func) == "json.dumps"]
+        raw = [x for x in dumps if (lambda k: k is not None and isinstance(k, ast.Constant) and k.value is False)(kwarg(x, "ensure_ascii"))]
+        if not dumps:
+            raise AnalysisError(f"anchor-vanished: json.dumps in {q}")
+        n_w += 1
+        encs = [x for x in walk_no_defs(fn.node) if isinstance(x, ast.Call) and isinstance(x.func, ast.Attribute) and x.func.attr == "encode"]
+        lenient = [x for x in encs if const_str(kwarg(x, "errors") or (x.args[1] if len(x.args) > 1 else None)) in LENIENT_CODEC_ERRORS]
+        strict = [x for x in encs if x not in lenient]
+        # text handed to the atomic writer is encoded there, strictly: it must have passed a lenient encode before
+        to_atomic = [x for x in walk_no_defs(fn.node) if isinstance(x, ast.Call) and call_tail(x) in ("atomic_write_text",)]
+        ok = (not raw) or (bool(lenient) and not strict) if not to_atomic else ((not raw) or bool(lenient))
+        ctx.check(ok, "C16.LINE", f"{q}/line-encoding-total", fn.loc((strict or raw or dumps)[0]), "text that may hold a lone surrogate is encoded with an error handler (or dumped with ensure_ascii)",
+                  f"`{src((strict or raw)[0])[:60]}`: json.dumps(ensure_ascii=False) keeps a lone surrogate and the strict UTF-8 encode then raises - the record is not written, and in the staged flush "
+                  "(stager already drained) every record sorted after it is lost too, other agents' records and the apply records of applied changes included")
+    ctx.floor("C16.LINE", "line writers checked for a total encoding", n_w, 2)
+    fl = ctx.func("clematis.engine.util.logmux:flush")
+    targets = {ctx.prog.callee(fl, x)[1] for x in walk_no_defs(fl.node) if isinstance(x, ast.Call) and ctx.prog.callee(fl, x)}
+    aware = LOGMOD + ":append_jsonl" in targets
+    ctx.check(UNBUF in targets and not aware, "C16.LINE", "clematis.engine.util.logmux:flush/writes-past-the-mux", fl.loc(), "flush() hands its pairs to the unbuffered writer",
+              "flush() goes through the capture-aware append_jsonl: called while the mux is still active (as LogMux's own usage note does) the pairs are buffered again and nothing reaches the file")
+
+
 def _reaches(ctx, fn, target_qual: str, depth: int, seen=None) -> bool:
     seen = seen if seen is not None else set()
     if fn.qual in seen or depth < 0:
@@ -371,7 +405,16 @@ def rule_rewrite(ctx) -> None:
               "rewrite does not go through the atomic write path exactly once")
     for n, c in aw:
         inl = rd.inline(c.args[1], n) if len(c.args) > 1 else None
-        ok = isinstance(inl, ast.Call) and isinstance(inl.func, ast.Attribute) and inl.func.attr == "join" and const_str(inl.func.value) == ""
+        def is_join(e):
+            return isinstance(e, ast.Call) and isinstance(e.func, ast.Attribute) and e.func.attr == "join" and const_str(e.func.value) == ""
+        ok = is_join(inl)
+        if not ok and len(c.args) > 1 and isinstance(c.args[1], ast.Name):
+            # the joined text, possibly re-encoded in place (x = x.encode(.., handler).decode(..)): still every line, in order
+            nm = c.args[1].id
+            ds = [d for d in rd.all_defs if d.name == nm and d.value is not None]
+            recode = lambda e: isinstance(e, ast.Call) and isinstance(e.func, ast.Attribute) and e.func.attr == "decode" and isinstance(e.func.value, ast.Call) \
+                and isinstance(e.func.value.func, ast.Attribute) and e.func.value.func.attr == "encode" and src(e.func.value.func.value) == nm
+            ok = any(is_join(d.value) for d in ds) and all(is_join(d.value) or recode(d.value) for d in ds)
         ctx.check(ok, "C16.REWRITE", f"{fn.qual}/payload-join", fn.loc(c), "payload is ''.join(lines)", f"payload is `{src(inl)[:50] if inl is not None else ''}`")
 
 
@@ -591,6 +634,7 @@ def rule_rot(ctx) -> None:
 
 def run(ctx) -> None:
     rule_line(ctx)
+    rule_line_total(ctx)
     rule_norm(ctx)
     rule_order(ctx)
     rule_rewrite(ctx)
